@@ -68,11 +68,11 @@ Proof.
       | apply conn_clean_init | apply conn_clean_init | exact Hc | exact Hc | exact Hc].
 Qed.
 
-Lemma run_handler_clean ops st0 : ops_guard ops -> conn_clean (h_rh (run_handler ops (hstate0 st0))).
+Lemma run_handler_clean ops st0 nr0 : ops_guard ops -> conn_clean (h_rh (run_handler ops (hstate0 st0 nr0))).
 Proof.
   intros Hg. unfold run_handler, after_handler.
-  destruct (h_timeout (fold_left apply_hop ops (hstate0 st0))).
-  { cbn. destruct (h_tclose (fold_left apply_hop ops (hstate0 st0))); [apply conn_clean_set_close|]; apply conn_clean_init. }
+  destruct (h_timeout (fold_left apply_hop ops (hstate0 st0 nr0))).
+  { cbn. destruct (h_tclose (fold_left apply_hop ops (hstate0 st0 nr0))); [apply conn_clean_set_close|]; apply conn_clean_init. }
   apply apply_hops_clean; [exact Hg|apply conn_clean_init].
 Qed.
 
